@@ -1,10 +1,11 @@
 #!/bin/bash
 # tools/sweep_mutants.sh — apply every seeded change (/verif/seeded/<ID>-mN/patch.diff) to /repo in turn, run its
 # property's quick check, record exit code and signatures in /verif/.build/mutant_sweep.jsonl, revert.
+# optional arguments: names to run (e.g. C01-m7 C03-m8); default all. Results are appended when names are given.
 OUT=/verif/.build/mutant_sweep.jsonl
-: > $OUT
+if [ $# -eq 0 ]; then : > $OUT; DIRS=(/verif/seeded/C*); else DIRS=(); for n in "$@"; do DIRS+=(/verif/seeded/$n); done; fi
 cd /repo && git diff --quiet || { echo "repo dirty"; exit 9; }
-for dir in /verif/seeded/C*; do
+for dir in "${DIRS[@]}"; do
   NAME=$(basename $dir); ID=${NAME%%-*}; M=${NAME##*-}
   cd /repo
   if ! git apply "$dir/patch.diff" 2>/dev/null; then
